@@ -28,5 +28,6 @@ def run(ctx, rep):
     rep.rule('E18', e18_reducer.__doc__.strip().split('\n')[0])
     e17_schur.run(facts, rep)
     e18_reducer.run(facts, rep)
+    e18_reducer.check_complex_glue(facts, rep)
     e8b_matrix.check_trans_order(facts, rep)
     e2_float.apply(facts, rep, scope, 'C08', floor_scope=40)
